@@ -35,7 +35,11 @@ impl BmCtl for AtomicBitmap {
     const TRACKED: bool = true;
     #[cfg(not(feature = "xen"))]
     fn mkreg(spec: &RegSpec, file: Option<&std::fs::File>, ps: usize) -> GuestRegionMmap<Self> {
-        tracked_region(spec, file, AtomicBitmap::new(spec.size, NonZeroUsize::new(ps).unwrap()))
+        match CTOR.with(|c| c.get()) {
+            1 => tracked_region_std::<AtomicBitmap>(spec, file, false),
+            2 => tracked_region_std::<AtomicBitmap>(spec, file, true),
+            _ => tracked_region(spec, file, AtomicBitmap::new(spec.size, NonZeroUsize::new(ps).unwrap())),
+        }
     }
     #[cfg(feature = "xen")]
     fn mkreg(_: &RegSpec, _: Option<&std::fs::File>, _: usize) -> GuestRegionMmap<Self> {
@@ -233,6 +237,20 @@ impl Scenario for GmScen {
     }
 }
 
+thread_local! {
+    /// mappings of our own handed to build_raw (released when the world is torn down)
+    static EXT_MAPS: std::cell::RefCell<Vec<(usize, usize)>> = const { std::cell::RefCell::new(Vec::new()) };
+}
+
+pub fn release_external_mappings() {
+    EXT_MAPS.with(|m| {
+        for (p, l) in m.borrow_mut().drain(..) {
+            // SAFETY: our own mapping, no region refers to it any more.
+            unsafe { libc::munmap(p as *mut libc::c_void, l) };
+        }
+    });
+}
+
 #[cfg(not(feature = "xen"))]
 fn tracked_region<B: Bitmap>(spec: &RegSpec, file: Option<&std::fs::File>, bitmap: B) -> GuestRegionMmap<B> {
     let mut b = vm_memory::mmap::MmapRegionBuilder::new_with_bitmap(spec.size, bitmap).with_mmap_prot(libc::PROT_READ | libc::PROT_WRITE);
@@ -243,10 +261,33 @@ fn tracked_region<B: Bitmap>(spec: &RegSpec, file: Option<&std::fs::File>, bitma
     GuestRegionMmap::new(b.build().expect("region"), GuestAddress(spec.base)).expect("guest region")
 }
 
-fn build_world<B: BmCtl>(regs: Vec<RegSpec>, page_sizes: &[usize]) -> GmWorld<B> {
+/// the public constructors that size the bitmap themselves (page size = system page size)
+#[cfg(not(feature = "xen"))]
+fn tracked_region_std<B: vm_memory::bitmap::NewBitmap>(spec: &RegSpec, file: Option<&std::fs::File>, raw: bool) -> GuestRegionMmap<B> {
+    if raw && file.is_none() {
+        let len = spec.size.div_ceil(4096) * 4096;
+        // SAFETY: plain anonymous mapping of our own, made with the real libc.
+        let p = unsafe { libc::mmap(std::ptr::null_mut(), len, libc::PROT_READ | libc::PROT_WRITE, libc::MAP_PRIVATE | libc::MAP_ANONYMOUS, -1, 0) };
+        assert!(p != libc::MAP_FAILED);
+        EXT_MAPS.with(|m| m.borrow_mut().push((p as usize, len)));
+        // SAFETY: the mapping stays until the world is torn down.
+        let r = unsafe { vm_memory::MmapRegion::<B>::build_raw(p as *mut u8, spec.size, libc::PROT_READ | libc::PROT_WRITE, libc::MAP_PRIVATE | libc::MAP_ANONYMOUS) }.expect("build_raw");
+        return GuestRegionMmap::new(r, GuestAddress(spec.base)).expect("guest region");
+    }
+    let fo = file.map(|f| vm_memory::FileOffset::new(f.try_clone().unwrap(), spec.file_off.unwrap()));
+    GuestRegionMmap::<B>::from_range(GuestAddress(spec.base), spec.size, fo).expect("region")
+}
+
+thread_local! {
+    /// which constructor the next tracked region is built with (0 builder, 1 from_range, 2 build_raw)
+    static CTOR: std::cell::Cell<u8> = const { std::cell::Cell::new(0) };
+}
+
+fn build_world<B: BmCtl>(regs: Vec<RegSpec>, page_sizes: &[usize], ctors: &[u8]) -> GmWorld<B> {
     let mut k = 0;
     GmWorld::<B>::build_with(regs, 9, |spec, file| {
         let ps = page_sizes[k];
+        CTOR.with(|c| c.set(ctors[k]));
         k += 1;
         B::mkreg(spec, file, ps)
     })
@@ -286,7 +327,10 @@ fn run_gm<B: BmCtl>() -> RunInfo {
             }
         })
         .collect();
-    let mut w: GmWorld<B> = build_world::<B>(regs, &page_sizes);
+    // the public constructors (from_range, build_raw) size the bitmap with the system page size
+    let ctors: Vec<u8> = regs.iter().map(|_| if tracked && std::any::TypeId::of::<B>() == std::any::TypeId::of::<AtomicBitmap>() && cx().a(4) == 0 { 1 + cx().a(2) as u8 } else { 0 }).collect();
+    let page_sizes: Vec<usize> = page_sizes.iter().zip(ctors.iter()).map(|(&p, &c)| if c != 0 { 4096 } else { p }).collect();
+    let mut w: GmWorld<B> = build_world::<B>(regs, &page_sizes, &ctors);
     let nact = 1 + cx().a(3);
     let nops = 1 + cx().a(if tracked { 10 } else { 14 }) as usize;
     let mut log: Vec<String> = Vec::new();
@@ -394,6 +438,7 @@ fn run_gm<B: BmCtl>() -> RunInfo {
     cx().actor = 0;
     let desc = if cx().trace { Some(J::obj().set("layout", J::strs(w.describe())).set("page_sizes", J::Arr(page_sizes.iter().map(|&p| J::i(p)).collect())).set("bitmap", J::s(std::any::type_name::<B>())).set("history", J::strs(log.clone()))) } else { None };
     w.teardown();
+    release_external_mappings();
     cx().mode = Mode::Oracle;
     RunInfo { nontrivial: ok_ops > 0 && rejected > 0, desc, cell: None }
 }
